@@ -828,7 +828,8 @@ def _unhex_common(c, strict_ws):
     if strict_ws:
         # binascii.unhexlify: str (ASCII) or bytes-like of even length, hex digits only
         if not validated:
-            c.rz("TypeError", "unhexlify() of a value that is not str/bytes", [("anyof", (("nottype", x, frozenset(["str", "bytes"])),))])
+            if ts is None or not ts <= {"str", "bytes", "bytearray", "memoryview"}:
+                c.rz("TypeError", "unhexlify() of a value that is not str/bytes", [("anyof", (("nottype", x, frozenset(["str", "bytes"])),))])
             c.rz("ValueError", "unhexlify() of non-hexadecimal or odd-length text", [("anyof", (("notok", CallT("ext:bytes.fromhex", [x])), ("falsy", CallT("method:isalnum", [x]))))])
     else:
         if ts is None or not ts <= {"str"}:
